@@ -647,6 +647,25 @@ def compare(c, d, msteps, isteps):
     return None
 
 
+
+def cut_ambiguous(c, isteps, msteps):
+    """DESIGN 3.2: a harmonic restraint on a periodic variable whose value is (within rounding) exactly half a
+    period from the centre has two shortest images; which one the floor picks depends on the last bit of a
+    centre that was interpolated or went through a text state.  Such an event, and what follows it in the
+    scenario (the accumulated work integrates the force), is counted as boundary-ambiguous and not compared."""
+    if c["kind"] != "harmonic" or not any(v["per"] for v in c["vars"]):
+        return c, isteps, msteps, False
+    for idx, ((typ, xs), o) in enumerate(zip(c["events"], isteps)):
+        for i, v in enumerate(c["vars"]):
+            if v["per"] and i < len(o["C"]):
+                P = fr(v["P"])
+                sd = shortest(fr(xs[i]) - fr(o["C"][i]), P)
+                if abs(sd) != P / 2 and abs(float(abs(sd) - P / 2)) < 1e-9:    # exact (dyadic) ties are deterministic and stay compared
+                    c2 = dict(c, events=c["events"][:idx])
+                    return c2, isteps[:idx], msteps[:idx], True
+    return c, isteps, msteps, False
+
+
 def nontrivial(c, d, steps):
     """>= 2 stages completed, or a wall crossed, or a period boundary crossed, or a segmentation event"""
     if c["mode"] in ("cs", "ks", "kl") and steps and max(s["ST"] for s in steps) >= 2:
@@ -798,11 +817,19 @@ def check(run):
                 continue
             run.count(key, nontrivial(c, ds[k], cs["steps"]))
             ms = parse_model_line(mout[k]) if k < len(mout) else []
-            bad = compare(c, ds[k], ms, cs["steps"])
+            if len(ms) != len(cs["steps"]):
+                run.mismatch("restraint:%s:%s" % (c["kind"], c["mode"]), {"case": c, "model_case": mlines[k]},
+                             "%d events executed" % len(cs["steps"]), "%d events executed" % len(ms))
+                continue
+            cfull = c
+            c, isteps, ms, cut = cut_ambiguous(c, cs["steps"], ms)
+            if cut:
+                run.dist("boundary-ambiguous (half a period from the centre): scenario cut")
+            bad = compare(c, ds[k], ms, isteps)
             if bad:
                 nmis += 1
-                run.mismatch("restraint:%s:%s" % (c["kind"], c["mode"]), {"case": c, "model_case": mlines[k]}, bad, "agreement")
-            for sig, text in oracle(c, ds[k], cs["steps"]):
+                run.mismatch("restraint:%s:%s" % (c["kind"], c["mode"]), {"case": cfull, "model_case": mlines[k]}, bad, "agreement")
+            for sig, text in oracle(c, ds[k], isteps):
                 run.violation(sig, text, {"kind": "scenario", "case": c, "scenario": scenario(c, 0, "."), "model_case": mlines[k]})
             if b0 == 0 and k < 2:
                 run.sample({"scenario": config_text(c), "events": c["events"][:6], "first_outputs": cs["raw"][:6]})
